@@ -9,7 +9,7 @@ func init() {
 			"pool accumulators are brought up to now before positions, ticks or incentive records change; claiming sets the position's snapshot to init + growth outside, claims, then re-bases to global − outside; emission pays min(emitted, remaining) and deducts exactly what it paid; rewards for an uptime the position has not reached are forfeited, never added to the collected coins.",
 		NotCovered:  []string{"proportionality and identical-positions-earn-identical-rewards as numbers", "totals claimable vs paid in over histories"},
 		Assumptions: []string{"osmoutils/accum semantics (C15)"},
-		MinObl:      47,
+		MinObl:      48,
 		Run:         runC08,
 	})
 }
@@ -68,6 +68,7 @@ func runC08(c *rules.Ctx) {
 	c.BranchOn(PC, "lt(time.Time.Sub(sdk.Context.BlockTime(ctx), cl.Keeper.GetPosition(k,ctx,positionId)#0.JoinTime), elem(@cltypes.SupportedUptimes))", nil, "the position's age (block time − join time) is compared with each uptime")
 	c.FailsWhen(PC, "lt(time.Time.Sub(sdk.Context.BlockTime(ctx), cl.Keeper.GetPosition(k,ctx,positionId)#0.JoinTime), 0)", "a negative position age is an error", rules.GuardOpt{})
 	clRedepositRules(c)
+	c.CheckedCall(K+"WithdrawPosition", "cl.Keeper.redepositForfeitedIncentives", []string{"k", "ctx", "cl.Keeper.GetPosition(k,ctx,positionId)#0.PoolId", "owner", "cl.Keeper.collectIncentives(k,ctx,owner,positionId)#2", "cl.Keeper.collectIncentives(k,ctx,owner,positionId)#1"}, "every withdrawal — partial or full — re-deposits (or refunds) what the position forfeited when its incentives were collected", "")
 }
 
 // clScalingRules: one scaling factor per accumulator family, used by growth and claim alike, with the documented
